@@ -324,7 +324,7 @@ func main() {
 		rr, _ := roundrobin.New(byHost)
 		rb, _ := roundrobin.NewRebalancer(rr, roundrobin.RebalancerBackoff(300*time.Millisecond), // a pass every few requests: weights keep moving
 			roundrobin.RebalancerLogger(yieldingLogger{}))
-		ua, ub, uc := mustURL("http://a:80"), mustURL("http://b:80"), mustURL("http://c:80")
+		ua, ub, uc, ud := mustURL("http://a:80"), mustURL("http://b:80"), mustURL("http://c:80"), mustURL("http://d:80")
 		_ = rb.UpsertServer(ua)
 		_ = rb.UpsertServer(ub)
 		_ = rb.UpsertServer(uc)
@@ -352,6 +352,24 @@ func main() {
 					_ = rb.UpsertServer(uc) // a reset: every server is put back to its configured weight
 					if got, _ := rr.ServerWeight(ub); got != w {
 						fail("Rebalancer: UpsertServer(b, Weight(%d)) succeeded; after a reset with no request in flight b's weight is %d: a re-weighting pass that ran during the call was taken for the configuration", w, got)
+					}
+					gate.Unlock()
+				}
+				return
+			}
+			if gi == 1 {
+				// a second administrator adds and removes server d; once a removal has succeeded and the requests that were
+				// in flight have finished, nothing serves d any more (no pass may bring it back from a stale view)
+				// (d stays long enough for its meter to fill up: while a member's meter is not ready no pass runs)
+				if i%60 == 0 {
+					_ = rb.UpsertServer(ud, roundrobin.Weight(1+i%3))
+				} else if i%60 != 45 {
+					rb.ServeHTTP(httptest.NewRecorder(), request("10.0.0.3"))
+				} else if err := rb.RemoveServer(ud); err == nil {
+					gate.Lock()
+					if w, found := rr.ServerWeight(ud); found {
+						fail("Rebalancer: RemoveServer(d) succeeded; with no request in flight the inner balancer serves d again with weight %d", w)
+						_ = rr.RemoveServer(ud)
 					}
 					gate.Unlock()
 				}
